@@ -11,6 +11,8 @@ RC = "kappadata/wrappers/sample_wrappers/kd_random_class_wrapper.py"
 OH = "kappadata/wrappers/sample_wrappers/one_hot_wrapper.py"
 
 MUTANTS = [
+    ("pseudo labels: bulk threshold strict where per-sample is not", [(PL, "argmax[probs <= self.threshold] = -1", "argmax[probs < self.threshold] = -1")], "G9.threshold-twins"),
+    ("pseudo labels: per-sample threshold made inclusive", [(PL, "if pseudo_label_probs[argmax] > self.threshold:", "if pseudo_label_probs[argmax] >= self.threshold:")], "G9.threshold-twins"),
     ("allgather double translation (original defect)", [(AG, "return [self.getitem_class(idx) for idx in range(len(self))]", "return [self.getitem_class(self.indices[idx]) for idx in range(len(self))]")], "G5.index-space"),
     # not detectable by a sound structural rule (the index map simply becomes unused; flagging unused attributes would also
     # fire on behaviour-preserving edits): ("allgather per-sample path untranslated", getitem_class without self.indices)
@@ -34,6 +36,7 @@ MUTANTS = [
 ]
 
 BENIGN = [
+    ("pseudo labels: bulk threshold mirrored", [(PL, "argmax[probs <= self.threshold] = -1", "argmax[self.threshold >= probs] = -1")]),
     ("semi wrapper copies with slicing", [(SM, "        cls = list(self.dataset.getall_class())\n", "        cls = self.dataset.getall_class()[:]\n")]) if False else
     ("semi wrapper builds a new list", [(SM, "        cls = list(self.dataset.getall_class())\n        for idx in self.semi_idxs:\n            cls[idx] = -1\n        return cls", "        cls = self.dataset.getall_class()\n        return [-1 if i in self.semi_idxs else c for i, c in enumerate(cls)]")]),
     ("overwrite bulk via the table", [(OW, "        return [self.getitem_class(idx) for idx in range(len(self))]", "        return [self.getitem_class(i) for i in range(len(self.classes))]")]),
